@@ -50,6 +50,13 @@ class MultiFit(FitBase):
         self._shared_error_dicts = dict()
         self._shared_error_nodes_initialized = False
         self._min_x_error = None
+        # The fitters of the individual fits are replaced during initialization.
+        # Their fixed and limited parameters are carried over to the new fitters and to the MultiFit.
+        _fixed_parameters = OrderedDict()
+        _limited_parameters = OrderedDict()
+        for _fit in self._fits:
+            _fixed_parameters.update(_fit._fitter.fixed_parameters)
+            _limited_parameters.update(_fit._fitter.limited_parameters)
         super(MultiFit, self).__init__(
             data=None,
             model_function=None,
@@ -58,6 +65,13 @@ class MultiFit(FitBase):
             minimizer_kwargs=minimizer_kwargs,
             dynamic_error_algorithm=dynamic_error_algorithm,
         )
+        for _name, _value in _fixed_parameters.items():
+            self.fix_parameter(_name, _value)
+        for _name, _limits in _limited_parameters.items():
+            self.limit_parameter(_name, _limits[0], _limits[1])
+            for _fit in self._fits:
+                if _name in _fit.parameter_names:
+                    _fit.limit_parameter(_name, _limits[0], _limits[1])
 
     # -- private methods
 
